@@ -506,15 +506,21 @@ func (c *Ctx) ruleTagPairing() {
 			r.Bad("C05-TAG-PAIRING", "tagNames", "tag and interaction sides can diverge: "+why, c.pos(tn.Decl.Pos()))
 		}
 	}
-	for _, name := range []string{"Catalog.AddHTTPMethod", "Catalog.AddJsonRpcMethod"} {
-		f := c.fn("catalog", name)
-		if f == nil {
-			r.Undecided("C05-TAG-PAIRING", name, "function not found", "")
+	// every function that calls tagNames (the two method setters, or a helper they share)
+	tnFn := c.P.LookupFunc("catalog", "Catalog.tagNames")
+	nSites := 0
+	for _, f := range c.libFns() {
+		if tnFn == nil || f.Obj == tnFn {
 			continue
 		}
 		pk := f.Pkg
+		tnCalls := callsIn(pk, f.Decl.Body, tnFn)
+		if len(tnCalls) == 0 {
+			continue
+		}
+		nSites++
+		name := recvName(f.Obj) + "." + f.Obj.Name()
 		cf := buildCFG(f.Decl.Body)
-		tnCalls := callsIn(pk, f.Decl.Body, c.P.LookupFunc("catalog", "Catalog.tagNames"))
 		var setCall *ast.CallExpr
 		ast.Inspect(f.Decl.Body, func(n ast.Node) bool {
 			if call, ok := n.(*ast.CallExpr); ok {
@@ -525,7 +531,7 @@ func (c *Ctx) ruleTagPairing() {
 			return true
 		})
 		if len(tnCalls) != 1 || setCall == nil {
-			r.Bad("C05-TAG-PAIRING", name, "tagNames or Interactions.Set missing", c.pos(f.Decl.Pos()))
+			r.Bad("C05-TAG-PAIRING", name, "tagNames is called without the Interactions.Set that stores the interaction under the same id", c.pos(f.Decl.Pos()))
 			continue
 		}
 		idPath := accessPath(pk, setCall.Args[0])
@@ -533,14 +539,52 @@ func (c *Ctx) ruleTagPairing() {
 		// constructor given the same id, result is the value stored
 		ctorOK := false
 		inPath := accessPath(pk, setCall.Args[1])
+		isCtorOf := func(g *Fn, e ast.Expr, idp string) bool {
+			call, ok := ast.Unparen(e).(*ast.CallExpr)
+			return ok && len(call.Args) >= 1 && accessPath(g.Pkg, call.Args[0]) == idp && idp != ""
+		}
 		ast.Inspect(f.Decl.Body, func(n ast.Node) bool {
 			if as, ok := n.(*ast.AssignStmt); ok && len(as.Lhs) == 1 && len(as.Rhs) == 1 && accessPath(pk, as.Lhs[0]) == inPath {
-				if call, ok := ast.Unparen(as.Rhs[0]).(*ast.CallExpr); ok && len(call.Args) >= 1 && accessPath(pk, call.Args[0]) == idPath {
+				if isCtorOf(f, as.Rhs[0], idPath) {
 					ctorOK = true
 				}
 			}
 			return true
 		})
+		if !ctorOK {
+			// id and interaction are parameters of a helper: every caller builds the interaction from the id it passes
+			ii, vi := paramIndexOf(f, setCall.Args[0]), paramIndexOf(f, setCall.Args[1])
+			if ii >= 0 && vi >= 0 && !paramAssigned(f, setCall.Args[0]) && !paramAssigned(f, setCall.Args[1]) {
+				if sites, closed := c.callersOf(f); closed && len(sites) > 0 {
+					all := true
+					for _, cs := range sites {
+						ia, va := argFor(cs, ii), argFor(cs, vi)
+						okSite := false
+						if ia != nil && va != nil {
+							idp := accessPath(cs.g.Pkg, ia)
+							if isCtorOf(cs.g, va, idp) {
+								okSite = true
+							} else if vp := accessPath(cs.g.Pkg, va); vp != "" {
+								ast.Inspect(cs.g.Decl.Body, func(n ast.Node) bool {
+									if as, ok := n.(*ast.AssignStmt); ok && len(as.Lhs) == 1 && len(as.Rhs) == 1 && accessPath(cs.g.Pkg, as.Lhs[0]) == vp && isCtorOf(cs.g, as.Rhs[0], idp) {
+										okSite = true
+									}
+									return true
+								})
+							}
+						}
+						skey := name + " <- " + recvName(cs.g.Obj) + "." + cs.g.Obj.Name()
+						if okSite {
+							r.Ok("C05-TAG-PAIRING", skey, "the caller builds the interaction from the id it hands to the helper", c.pos(cs.call.Pos()))
+						} else {
+							r.Bad("C05-TAG-PAIRING", skey, "the interaction handed to the helper is not built from the id handed with it", c.pos(cs.call.Pos()))
+							all = false
+						}
+					}
+					ctorOK = all
+				}
+			}
+		}
 		// names appended in a loop over the result of tagNames
 		appended := false
 		ast.Inspect(f.Decl.Body, func(n ast.Node) bool {
@@ -575,6 +619,30 @@ func (c *Ctx) ruleTagPairing() {
 			r.Ok("C05-TAG-PAIRING", name, "one id for tagNames, constructor and Set; every returned tag name is appended; Set follows unconditionally", c.pos(f.Decl.Pos()))
 		} else {
 			r.Bad("C05-TAG-PAIRING", name, fmt.Sprintf("same id=%v constructor=%v names appended=%v no early success return=%v: a tag can list an interaction that is not stored under that id (or vice versa)", sameID, ctorOK, appended, clean), c.pos(f.Decl.Pos()))
+		}
+	}
+	if nSites == 0 {
+		r.Undecided("C05-TAG-PAIRING", "callers of tagNames", "no function calls tagNames", "")
+	}
+	// both kinds of interaction go through it
+	for _, name := range []string{"Catalog.AddHTTPMethod", "Catalog.AddJsonRpcMethod"} {
+		f := c.fn("catalog", name)
+		if f == nil {
+			r.Undecided("C05-TAG-PAIRING", name+" reaches tagNames", "function not found", "")
+			continue
+		}
+		reaches := len(callsIn(f.Pkg, f.Decl.Body, tnFn)) > 0
+		if !reaches {
+			for _, g := range c.libFns() {
+				if len(callsIn(f.Pkg, f.Decl.Body, g.Obj)) > 0 && g.Obj != f.Obj && len(callsIn(g.Pkg, g.Decl.Body, tnFn)) > 0 {
+					reaches = true
+				}
+			}
+		}
+		if reaches {
+			r.Ok("C05-TAG-PAIRING", name+" reaches tagNames", "the setter resolves the tags of its interaction (directly or through the shared helper)", c.pos(f.Decl.Pos()))
+		} else {
+			r.Bad("C05-TAG-PAIRING", name+" reaches tagNames", "the setter stores an interaction without resolving its tags: the interaction is missing from every tag", c.pos(f.Decl.Pos()))
 		}
 	}
 }
